@@ -462,13 +462,20 @@ func c17RunImpl(c *c17Case) *c17Obs {
 		obs.Class = "hang"
 		return obs
 	}
-	if panicked {
-		// the goroutines of the other calls were spawned before the inline task ran: let the
-		// script finish so that nothing of this case is left running
+	started := 0
+	for k := range env.count {
+		started += int(atomic.LoadInt32(&env.count[k]))
+	}
+	if started > 0 {
+		// Some tool ran, so the tasks were generated and every goroutine was spawned (they are
+		// spawned before the inline task runs).  When a panic left the inline task, Invoke
+		// returned without wg.Wait(): the other runners may not even have started.  Let the
+		// script run to its end so that the execution counts are final and nothing of this
+		// case is left running.
 		select {
 		case <-ctrlDone:
 		case <-time.After(c17Timeout):
-			obs.Note = "script did not finish after the escaped panic"
+			obs.Note = "script did not finish after the call returned"
 		}
 	}
 	close(env.abort)
